@@ -4,11 +4,22 @@ import (
 	"fmt"
 	"os"
 
+	depapp "github.com/modernizing/coca/analysis/dep/app"
 	"github.com/modernizing/coca/cmd"
 )
 
 func runCli(args []string) {
 	root := cmd.NewRootCmd(os.Stdout)
+	root.SetArgs(args)
+	if err := root.Execute(); err != nil {
+		fmt.Fprintln(os.Stderr, err)
+		os.Exit(1)
+	}
+}
+
+// the dependency sub-command (analysis/dep): `harness __cli_dep deps -p dir`
+func runDepCli(args []string) {
+	root := depapp.NewRootCmd(os.Stdout)
 	root.SetArgs(args)
 	if err := root.Execute(); err != nil {
 		fmt.Fprintln(os.Stderr, err)
